@@ -1,0 +1,86 @@
+// Verification hooks (cargo feature `verif`). Everything in here is inert unless a
+// test harness arms it: no observer, no gate scheduler, no fault oracle installed
+// means every call returns immediately without yielding.
+
+use std::future::Future;
+use std::pin::Pin;
+use std::sync::{Arc, Mutex, RwLock};
+
+/// Synchronous observer of named events (`kind`, `detail`).
+pub type Observer = Arc<dyn Fn(&str, &str) + Send + Sync>;
+/// Asynchronous gate: called with the gate name, the returned future is awaited at the gate.
+pub type GateFn = Arc<dyn Fn(&str) -> Pin<Box<dyn Future<Output = ()> + Send>> + Send + Sync>;
+/// Fault oracle: (operator id, operator name, item index or `usize::MAX` for end of stream).
+pub type FaultFn = Arc<dyn Fn(usize, &str, usize) -> Option<Fault> + Send + Sync>;
+
+/// The fault to inject at an operator output.
+#[derive(Debug, Clone, Copy, PartialEq, Eq)]
+pub enum Fault {
+    Error,
+    Panic,
+}
+
+static OBSERVER: RwLock<Option<Observer>> = RwLock::new(None);
+static GATE: RwLock<Option<GateFn>> = RwLock::new(None);
+static FAULT: RwLock<Option<FaultFn>> = RwLock::new(None);
+static DISABLED_RULES: Mutex<Vec<String>> = Mutex::new(Vec::new());
+
+pub fn set_observer(f: Option<Observer>) {
+    *OBSERVER.write().unwrap() = f;
+}
+
+pub fn set_gate(f: Option<GateFn>) {
+    *GATE.write().unwrap() = f;
+}
+
+pub fn set_fault(f: Option<FaultFn>) {
+    *FAULT.write().unwrap() = f;
+}
+
+pub fn set_disabled_rules(names: Vec<String>) {
+    *DISABLED_RULES.lock().unwrap() = names;
+}
+
+/// Reset all hooks to the inert state.
+pub fn reset() {
+    set_observer(None);
+    set_gate(None);
+    set_fault(None);
+    set_disabled_rules(vec![]);
+}
+
+/// Report an event to the observer, if any.
+pub fn event(kind: &str, detail: &str) {
+    let obs = OBSERVER.read().unwrap().clone();
+    if let Some(f) = obs {
+        f(kind, detail);
+    }
+}
+
+/// Report a persistence step on `path`.
+pub fn persist(kind: &str, path: impl AsRef<std::path::Path>) {
+    let obs = OBSERVER.read().unwrap().clone();
+    if let Some(f) = obs {
+        f(kind, &path.as_ref().to_string_lossy());
+    }
+}
+
+/// A named yield point. Returns immediately unless a gate function is installed.
+pub async fn gate(name: &str) {
+    let g = GATE.read().unwrap().clone();
+    if let Some(f) = g {
+        f(name).await;
+    }
+}
+
+/// Ask the fault oracle what to do at the output of an operator.
+pub fn fault(op_id: usize, op_name: &str, item: usize) -> Option<Fault> {
+    let g = FAULT.read().unwrap().clone();
+    g.and_then(|f| f(op_id, op_name, item))
+}
+
+/// Whether the optimizer rule with the given name is disabled by the harness.
+pub fn rule_disabled(name: &str) -> bool {
+    let d = DISABLED_RULES.lock().unwrap();
+    !d.is_empty() && d.iter().any(|n| n == name)
+}
